@@ -180,6 +180,9 @@ func (s *sharedEntryAttributes) resolve_leafref_key_path(ctx context.Context, ke
 		}
 
 		lvs := keyValue.GetHighestPrecedence(LeafVariantSlice{}, false)
+		if len(lvs) == 0 {
+			return fmt.Errorf("no value present for %s", strings.Join(keyValue.Path(), "/"))
+		}
 		tv, err := lvs[0].Value()
 		if err != nil {
 			return err
